@@ -7,6 +7,7 @@ import (
 	"encoding/binary"
 	"fmt"
 	"io"
+	"runtime"
 	"time"
 
 	"github.com/gopcua/opcua/ua"
@@ -41,7 +42,7 @@ type c13Run struct {
 func (r *c13Run) Sample() any { return r }
 
 var c13Kinds = []string{"valid-msg", "mutate-size", "mutate-header", "mutate-body", "garbage", "partial-flood", "endless", "bad-opn", "clo", "unknown-type",
-	"tiny", "abort", "wrong-channel", "wrong-token", "dup-final", "err-frame", "huge-string", "truncated"}
+	"tiny", "abort", "wrong-channel", "wrong-token", "dup-final", "err-frame", "huge-string", "truncated", "huge-array-length"}
 
 const (
 	c13Buf       = 8192
@@ -149,6 +150,17 @@ func (r *c13Run) build(f c13Frame, channelID, tokenID uint32, seq *uint32, msgTy
 			binary.LittleEndian.PutUint32(body[len(body)-8:], 0x7ffffff0)
 		}
 		return [][]byte{chunk('F', uint32(f.A), body)}
+	case "huge-array-length": // a well-formed message whose last array claims millions of elements
+		var body []byte
+		n := []uint32{0x01000000, 0x02000000}[f.B%2]
+		if msgType == "req" {
+			body, _ = encodeService(&ua.ReadRequest{RequestHeader: &ua.RequestHeader{AuthenticationToken: ua.NewTwoByteNodeID(0), Timestamp: time.Now(), AdditionalHeader: ua.NewExtensionObject(nil)}})
+			binary.LittleEndian.PutUint32(body[len(body)-4:], n) // NodesToRead
+		} else {
+			body, _ = encodeService(&ua.ReadResponse{ResponseHeader: rawRespHeader(uint32(f.A), ua.StatusOK)})
+			binary.LittleEndian.PutUint32(body[len(body)-8:], n) // Results
+		}
+		return [][]byte{chunk('F', uint32(3000+f.A), body)}
 	case "truncated":
 		fr := chunk('F', uint32(f.A), validBody(64))
 		cut := 1 + f.B%(len(fr)-1)
@@ -169,6 +181,8 @@ func (r *c13Run) Main(s *sim.Sim) {
 	done := make(chan string, 1)
 	var total int
 	var frames [][]byte
+	var m0 runtime.MemStats
+	runtime.ReadMemStats(&m0)
 
 	if r.ServerKind {
 		ack := &uacp.Acknowledge{ReceiveBufSize: c13Buf, SendBufSize: c13Buf, MaxChunkCount: c13MaxChunks, MaxMessageSize: c13MaxChunks * c13Buf}
@@ -341,6 +355,15 @@ func (r *c13Run) Main(s *sim.Sim) {
 			return
 		}
 		s.Probe("receiver-still-waiting") // legitimate: it waits for more input
+	}
+	// what the receiver allocates has to be in proportion to what it was sent: a few
+	// hundred bytes must not make it allocate hundreds of megabytes (on a box with
+	// less memory that is the end of the process, whatever Receive returns afterwards)
+	var m1 runtime.MemStats
+	runtime.ReadMemStats(&m1)
+	if alloc := int64(m1.TotalAlloc - m0.TotalAlloc); alloc > 96<<20+64*int64(total) {
+		s.Fail("C13", "unbounded-allocation", "allocation-out-of-proportion-to-input", "the process allocated %d MB while the channel received %d bytes of hostile input (a length field inside a message is trusted before the bytes are there)", alloc>>20, total)
+		return
 	}
 	if sc != nil {
 		ids, chunks, bytes := sc.VerifBufferedChunks()
